@@ -61,6 +61,19 @@ class StubRemoteValue:
         ghost("switched").append(True)
 
 
+class Handle:
+    """asyncio.Task handle of a task instance: running (done() False) or finished."""
+
+    def __init__(self, finished):
+        self.finished = finished
+
+    def done(self):
+        return self.finished
+
+    def cancel(self):
+        ghost("cancelled").append(self)
+
+
 TIMEOUT = Float(lo=0.001, hi=100000.0)
 COUNT = Int(0, 1000000)
 XK = Obj(World, task_registry=Const(RecRegistry()))
@@ -81,8 +94,8 @@ def sensor_spec(context):
         _count_set_on=COUNT,
         _count_set_off=COUNT,
         _last_set=Choice(None, Float(lo=0.0, hi=4.0e9)),
-        _reset_task=Choice(None, Obj(Task, name="reset", target=None, restart_after_reconnect=False, wait_before_start=TIMEOUT, wait_for_connection=False, repeat_after=None, _task=None, xknx=None)),
-        _context_task=Obj(Task, name="context", target=None, restart_after_reconnect=False, wait_before_start=TIMEOUT, wait_for_connection=False, repeat_after=None, _task=None, xknx=None) if context else None,
+        _reset_task=Choice(None, Obj(Task, name="reset", target=None, restart_after_reconnect=False, wait_before_start=TIMEOUT, wait_for_connection=False, repeat_after=None, _task=Choice(None, Obj(Handle, finished=Bool())), xknx=None)),
+        _context_task=Obj(Task, name="context", target=None, restart_after_reconnect=False, wait_before_start=TIMEOUT, wait_for_connection=False, repeat_after=None, _task=Choice(None, Obj(Handle, finished=Bool())), xknx=None) if context else None,
         remote_value=Obj(StubRemoteValue, accepted=Bool(), decoded=Bool(), value=Choice(None, True, False), telegram=Choice(None, WRITE, RESPONSE), after_update_cb=None),
     )
 
@@ -141,9 +154,9 @@ def every_telegram_is_counted_and_restarts_the_context_window(s, now, state):
 
 @lemma("C42", params=dict(s=sensor_spec(False), t=Choice(WRITE, RESPONSE)), stubs=STUBS)
 def sensor_reset_timer_restarts_on_every_on(s, t):
-    """BinarySensor without context: an accepted 'on' telegram (write or response) starts the reset task
-    exactly once - start_task replaces a running instance, so the timer restarts (C36) - an 'off' or a
-    telegram that is not accepted starts nothing."""
+    """BinarySensor without context, whether or not a reset timer is already running: an accepted 'on'
+    telegram (write or response) starts the reset task exactly once - start_task replaces a running
+    instance, so the timer restarts (C36) - an 'off' or a telegram that is not accepted starts nothing."""
     s.remote_value.after_update_cb = s._set_internal_state
     assume(s.state == s.remote_value.value)
     if isinstance(t.payload, GroupValueWrite):
